@@ -28,3 +28,4 @@ def run(prog, rep):
     _rkx.run_handles_only(prog, rep)
     from ..rules import r_flow as _rfa
     _rfa.run_aligned(prog, rep)
+    _rio2.run_set_extent(prog, rep)
